@@ -39,11 +39,22 @@ fn run_finder_opt(
     forks: bool,
 ) -> Vec<Vec<(usize, usize, i8)>> {
     let mut all = vec![];
-    if !log.begin(
-        tag,
-        json!({"starts": codons_json(starts), "stops": codons_json(stops), "min_len": min_len, "cloned": forks as u8}),
-    ) {
+    // a min_len beyond the 31-bit integers of the trace is written as a decimal string next to a stand-in
+    // (2^30) that is, like the real value, larger than every sequence driven here
+    let cfg = if min_len < (1 << 30) {
+        json!({"starts": codons_json(starts), "stops": codons_json(stops), "min_len": min_len, "cloned": forks as u8})
+    } else {
+        json!({"starts": codons_json(starts), "stops": codons_json(stops), "min_len": 1 << 30,
+               "min_len_exact": min_len.to_string(), "cloned": forks as u8})
+    };
+    if !log.begin(tag, cfg) {
         return all;
+    }
+    if min_len >= (1usize << 32) - 1 {
+        log.oblige("orf_min_len_at_and_beyond_2p32");
+    }
+    if min_len == usize::MAX {
+        log.oblige("orf_min_len_largest_value");
     }
     if starts.iter().any(|c| stops.contains(c)) {
         log.oblige("orf_codon_both_start_and_stop");
@@ -58,7 +69,15 @@ fn run_finder_opt(
     if starts.windows(2).any(|w| w[0] == w[1]) || stops.windows(2).any(|w| w[0] == w[1]) {
         log.oblige("orf_repeated_codon");
     }
-    let finder0 = Finder::new(starts.iter().collect(), stops.iter().collect(), min_len);
+    let mut made: Option<Finder> = None;
+    log.call("finder_new", json!({}), || {
+        made = Some(Finder::new(starts.iter().collect(), stops.iter().collect(), min_len));
+        json!({})
+    });
+    let finder0 = match made {
+        Some(f) => f,
+        None => return all,
+    };
     // with `forks`: a copy of the Finder (clone / serde round trip / clone_from into a used Finder of another
     // configuration); the copy serves the even sequences and the forks, the original the odd ones
     let salt = starts.len() + 2 * stops.len() + min_len + seqs.first().map(|t| t.len()).unwrap_or(0);
@@ -350,6 +369,25 @@ pub fn drive(log: &mut Log) {
                 }
             }
         }
+    }
+
+    // (m) min_len at and beyond 2^32 (and the largest value): nothing is long enough
+    for (mi, &ml) in [(1usize << 32) - 1, 1 << 32, (1 << 32) + 5, 1 << 40, 3 << 32, (1 << 32) + 3, usize::MAX - 2, usize::MAX]
+        .iter()
+        .enumerate()
+    {
+        case += 1;
+        if !log.mine(case) {
+            continue;
+        }
+        let mut rng = Rng::new(seed, 34, case);
+        let (starts, stops, alpha) = codon_sets(mi as u64);
+        let mut seqs: Vec<Vec<u8>> = vec![vec![], b"ATGTAG".to_vec(), b"ATGAAATAG".to_vec(), b"ATGATGAAAAAATAGTAG".to_vec()];
+        for n in [12usize, 60, 200, 300] {
+            seqs.push(soup(&mut rng, n, &starts, &stops, &alpha));
+        }
+        run_finder_opt(log, "ml", &starts, &stops, ml, &seqs, mi % 2 == 0);
+        run_finder(log, "ml", &STD_STARTS, &STD_STOPS, ml, &seqs);
     }
 
     // (b) codon soups up to 300 symbols, four start/stop sets, all listed min_len values, then
